@@ -16,10 +16,12 @@ def key(c):
 
 def run(rep):
     quick = rep.tier == "quick"
+    parts = os.environ.get("C17_PARTS", "all")          # development switch: "rw" = only the read/write-path family (partial run)
     # 1. model checking: the array store as a state machine (invariants), then the laws on every enumerated case
-    sm = tlc.run(rep.pid, "C17", SM_CFG, env={"TIER": rep.tier}, timeout=1800, tag="sm", heap="4g")
-    rep.add_tlc("C17.ArrayStateMachine", sm)
-    res = tlc.run(rep.pid, "C17", ENUM_CFG, env={"TIER": rep.tier}, timeout=2400, tag="enum", heap="6g")
+    if parts == "all":
+        sm = tlc.run(rep.pid, "C17", SM_CFG, env={"TIER": rep.tier}, timeout=1800, tag="sm", heap="4g")
+        rep.add_tlc("C17.ArrayStateMachine", sm)
+    res = tlc.run(rep.pid, "C17", ENUM_CFG, env={"TIER": rep.tier, "C17_PARTS": parts}, timeout=2400, tag="enum", heap="6g")
     rep.add_tlc("C17.Enum+Laws", res)
     seen, calls, scripts = set(), [], []
     import hashlib
@@ -30,7 +32,8 @@ def run(rep):
         seen.add(k)
         (calls if c["ty"] == "call" else scripts).append(c)
     res.records, res.stdout, seen = [], "", None          # the enumeration output is large: free it
-    if len(calls) < 5000 or len(scripts) < 500:
+    nrw = sum(1 for c in scripts if c.get("fam") == "rw")
+    if parts == "all" and (len(calls) < 5000 or len(scripts) - nrw < 500) or nrw < 500:
         raise Machinery("enumeration produced only %d calls, %d scripts" % (len(calls), len(scripts)))
     rng = random.Random(rep.seed)
     allc = []
@@ -40,21 +43,29 @@ def run(rep):
         allc.append(c)
     # the same cases with integer-valued numbers held as Python floats (representation mix): all plain calls, a sample of the rest
     for c in calls + scripts:
-        if rng.random() > (0.1 if c["ty"] == "call" and c["cb"]["kind"] != "na" else (1.0 if quick else 0.3)):
+        if c.get("fam") == "rw":
+            p = 0.25 if quick else 0.1               # a family about histories and aliasing, not about number representations
+        else:
+            p = 0.1 if c["ty"] == "call" and c["cb"]["kind"] != "na" else (1.0 if quick else 0.3)
+        if rng.random() > p:
             continue
         d = dict(c)
         d["id"] = len(allc)
         d["intrep"] = False
         allc.append(d)
-    hist = gen_histories(rng, 500 if quick else 8000)
-    tah = gen_ta_histories(rng, 300 if quick else 3000)
+    hist = gen_histories(rng, 500 if quick else 8000) if parts == "all" else []
+    tah = gen_ta_histories(rng, 300 if quick else 3000) if parts == "all" else []
     for h in hist + tah:
         h["id"] = len(allc)
         allc.append(h)
     rep.spaces.append({"space": "single calls: method x receiver family x argument grid x responder tables (TLC-enumerated)",
                        "cases": len(calls), "complete": True})
     rep.spaces.append({"space": "typed-array scripts: kinds x stored values x construction x set/subarray/two views (TLC-enumerated)",
-                       "cases": len(scripts), "complete": True})
+                       "cases": len(scripts) - nrw, "complete": True})
+    rep.spaces.append({"space": "typed-array read/write-path scripts on one buffer: kind pairs x observer (view, second view, subarray; writer created "
+                                "before / after the first read) x read path before (none, join, toString, copied by set) x writing view x "
+                                "write method (index, set from array, set from typed array) x read path after (TLC-enumerated, RWLaw)",
+                       "cases": nrw, "complete": True})
     rep.spaces.append({"space": "seeded random histories (arrays: <= 20 calls on three shared arrays; typed arrays: <= 20 events on two buffers)",
                        "cases": len(hist) + len(tah), "complete": False})
     # 2./3. replay into the engine and judge in TLC, batch by batch (bounded memory)
@@ -64,7 +75,9 @@ def run(rep):
     rep.evaluations = 0
     for lo in range(0, len(allc), BATCH):
         process(rep, allc[lo:lo + BATCH], None if quick else 8)
-    rep.exhaustive = True
+    rep.exhaustive = parts == "all"
+    if parts != "all":
+        rep.notes["partial_run"] = "C17_PARTS=" + parts
     # methods the engine offers that the specification does not cover yet (reported, not judged)
     names = ["at", "fill", "keys", "values", "entries", "flat", "flatMap", "findLast", "findLastIndex", "copyWithin", "toSorted", "toReversed",
              "toSpliced", "with", "reduceRight", "lastIndexOf"]
